@@ -105,13 +105,13 @@ example : NoHuge Flatland.Generated.C04.pyTables (.int 12345) = true := by
 /-- **reset_text** (partial: `Coherent`, see KF-C04-c) — after a successful `set`, setting `.u`
     again completes and reproduces the same `.u`. -/
 theorem reset_text_partial (E : Env) (hT : E.T.OK) (k : Kind) (x : Native) (r : SetResult)
-    (hm : Modelled k = true) (hc : Coherent k = true) (hcn : CoherentNone k = true)
+    (hm : Modelled k = true) (hc : Coherent k = true) (hcn : r.st.value = .none → CoherentNone k = true)
     (hw : WidthOK E.T k = true) (hx : NoHuge E.T x = true) (hwf : Native.WF x = true)
     (h : setScalar E k x = .ok r) (hf : r.flag = true) :
     ∃ r', setScalar E k (.str r.st.u) = .ok r' ∧ r'.st.u = r.st.u := by
-  obtain ⟨v, ha, _, hu⟩ := set_success E k x r h hf
+  obtain ⟨v, ha, hval, hu⟩ := set_success E k x r h hf
   have hv := adapt_value E hT k x v hx hwf ha
-  rcases reset_u_value E hT k hm hc hw v r.st.u hv hu (fun _ => hcn) with h1 | ⟨v', h1, h2⟩
+  rcases reset_u_value E hT k hm hc hw v r.st.u hv hu (fun hn => hcn (hval.trans hn)) with h1 | ⟨v', h1, h2⟩
   · exact ⟨⟨⟨.str r.st.u, .none, r.st.u⟩, false, [false]⟩, by simp [setScalar, h1, uOfFailed], rfl⟩
   · exact ⟨⟨⟨.str r.st.u, v', r.st.u⟩, true, [true]⟩, by simp [setScalar, h1, h2], rfl⟩
 
@@ -249,12 +249,12 @@ theorem reset_u_all (E : Env) (hT : E.T.OK) (k : Kind) (hst : OpaqueOK E k)
 
 /-- **reset_text** for every kind, Float and Decimal included, given a text-stable conversion table -/
 theorem reset_text_all_partial (E : Env) (hT : E.T.OK) (k : Kind) (hst : OpaqueOK E k) (x : Native) (r : SetResult)
-    (hc : Coherent k = true) (hcn : CoherentNone k = true) (hw : WidthOK E.T k = true)
+    (hc : Coherent k = true) (hcn : r.st.value = .none → CoherentNone k = true) (hw : WidthOK E.T k = true)
     (hx : NoHuge E.T x = true) (hwf : Native.WF x = true)
     (h : setScalar E k x = .ok r) (hf : r.flag = true) :
     ∃ r', setScalar E k (.str r.st.u) = .ok r' ∧ r'.st.u = r.st.u := by
-  obtain ⟨v, ha, _, hu⟩ := set_success E k x r h hf
-  rcases reset_u_all E hT k hst hc hw x v r.st.u hx hwf ha hu (fun _ => hcn) with h1 | ⟨v', h1, h2⟩
+  obtain ⟨v, ha, hval, hu⟩ := set_success E k x r h hf
+  rcases reset_u_all E hT k hst hc hw x v r.st.u hx hwf ha hu (fun hn => hcn (hval.trans hn)) with h1 | ⟨v', h1, h2⟩
   · exact ⟨⟨⟨.str r.st.u, .none, r.st.u⟩, false, [false]⟩, by simp [setScalar, h1, uOfFailed], rfl⟩
   · exact ⟨⟨⟨.str r.st.u, v', r.st.u⟩, true, [true]⟩, by simp [setScalar, h1, h2], rfl⟩
 
@@ -276,6 +276,42 @@ theorem norm_idem_all (E : Env) (hT : E.T.OK) (hE : EnvTotal E) (k : Kind) (hst 
     simp only [uOfFailed, Except.ok.injEq] at hu
     rw [← hu, hn]
     exact hu.symm
+
+/-- the table check is sound: what the runner (and, independently, the harness) evaluates on the
+    recorded conversions of a case is the hypothesis `OpaqueStable` for the environment of that case -/
+theorem opaqueStableOn_sound (T : Tables) (entries : List (Bool × Native × Option Tok)) (dec : Bool)
+    (hdec : ∃ e ∈ entries, e.1 = dec) (h : opaqueStableOn T entries = true) :
+    OpaqueStable ⟨T, tableConv entries⟩ dec := by
+  simp only [opaqueStableOn, Bool.and_eq_true, List.all_eq_true] at h
+  obtain ⟨h1, h2⟩ := h
+  obtain ⟨e0, he0, rfl⟩ := hdec
+  constructor
+  · have := h1 e0 he0
+    cases hc : tableConv entries e0.1 (.str []) with
+    | none => simp [hc] at this
+    | some o => cases o with
+      | none => exact hc
+      | some t => simp [hc] at this
+  · intro x t hx
+    simp only [tableConv, Option.map_eq_some_iff] at hx
+    obtain ⟨e, hfind, het⟩ := hx
+    have hmem := List.mem_of_find?_eq_some hfind
+    have hd : e.1 = e0.1 := by
+      have := List.find?_some hfind
+      simp only [Bool.and_eq_true, beq_iff_eq] at this
+      exact this.1
+    have := h2 e hmem
+    rw [het] at this
+    simp only at this
+    rw [hd] at this
+    cases hc : tableConv entries e0.1 (.str (strip T (tokText t))) with
+    | none => simp [hc] at this
+    | some o =>
+      cases o with
+      | none => exact Or.inl hc
+      | some t' =>
+        simp only [hc, beq_iff_eq] at this
+        exact Or.inr ⟨t', hc, this⟩
 
 /-- the full re-set clause: no hypothesis on the Boolean configuration -/
 def C04_Full_reset_u : Prop :=
